@@ -133,6 +133,30 @@ def oracle(ctx):
                     fail = f'--name is not followed by the container name {name!r}: {words}'
         if fail:
             res.oracle_failures.append(dict(op=op, impl_output=core.dec_line(rawhex), oracle_expectation=fail))
+    # the executable is an argument too: it comes from the environment (PODMAN) and may need quoting
+    import e2e, os, re as _re, shutil
+    for podman in ('/opt/container tools/podman', '/opt/it\'s/podman', '/opt/q"uote/podman', '/opt/back\\slash/podman', '/opt/tab\there/podman', '/opt/é/podman'):
+        base = e2e.fresh_dir()
+        os.makedirs(os.path.join(base, 'src'))
+        with open(os.path.join(base, 'src', 'web.container'), 'w') as f:
+            f.write('[Container]\nImage=localhost/i\n')
+        with open(os.path.join(base, 'src', 'grp.pod'), 'w') as f:
+            f.write('[Pod]\n')
+        with open(os.path.join(base, 'src', 'k.kube'), 'w') as f:
+            f.write('[Kube]\nYaml=/k.yaml\n')
+        rc, so, se = e2e.run_binary(['--dry-run', '--no-kmsg-log', os.path.join(base, 'out')], os.path.join(base, 'src'), extra_env={'PODMAN': podman})
+        shutil.rmtree(base, ignore_errors=True)
+        lines = _re.findall(r'^(Exec\w+)=(.*)$', so, _re.M)
+        outs = ctx.model(['spec_split_exec\t' + hx(v) for _, v in lines])
+        res.oracle_evals += 1
+        if len(lines) < 7:
+            res.oracle_failures.append(dict(op='e2e PODMAN', input=podman, impl_output=so[-600:] + se[-300:], oracle_expectation='the three units convert and print their Exec lines'))
+        for (k, v), b in zip(lines, outs):
+            words = [unhx(t) for t in b[4:-1].split(' ') if t] if b.startswith('ok [') else None
+            if not words or words[0] not in (podman, '-' + podman):
+                res.oracle_failures.append(dict(op='e2e PODMAN', input=dict(PODMAN=podman, key=k), impl_output=v,
+                                                oracle_expectation=f'the first argument of {k} is the executable {podman!r} (got {words[:3] if words else b})'))
+                break
     if meta:
         res.samples.append(dict(kind='oracle-case', exec_line=unhx(meta[0][2]), intended_tail=meta[0][3]))
     ctx.log(f'oracle: {res.oracle_evals} evaluations, {len(res.oracle_failures)} failures')
